@@ -5,7 +5,7 @@ from fractions import Fraction
 
 import torch
 
-from autojac_common import Probe, fmt_grads, make_agg
+from autojac_common import Probe, fmt_grads, jac_dtype, make_agg
 from common import Ctx, classify_exc, field, sx, to_frac
 from progs import differentiable_nonleaves, numel, random_mtl, random_program
 from prop_C01 import TRUSTED
@@ -105,11 +105,11 @@ def run_history(ctx: Ctx, P, M, ops):
         try:
             if op[0] == "backward":
                 _, tensors, ins, agg, chunk = op
-                backward([ts[i] for i in tensors], Recording(make_agg(agg, dtype), sink), inputs=[ts[i] for i in ins],
+                backward([ts[i] for i in tensors], Recording(make_agg(agg, jac_dtype(ts, ins, dtype)), sink), inputs=[ts[i] for i in ins],
                          retain_graph=True, parallel_chunk_size=chunk)
             elif op[0] == "mtl":
                 _, losses, feats, tasks, shared, agg, chunk = op
-                mtl_backward([ts[i] for i in losses], [ts[i] for i in feats], Recording(make_agg(agg, dtype), sink),
+                mtl_backward([ts[i] for i in losses], [ts[i] for i in feats], Recording(make_agg(agg, jac_dtype(ts, shared, dtype)), sink),
                              tasks_params=[[ts[i] for i in tp] for tp in tasks], shared_params=[ts[i] for i in shared],
                              retain_graph=True, parallel_chunk_size=chunk)
             elif op[0] == "zero":
@@ -119,9 +119,9 @@ def run_history(ctx: Ctx, P, M, ops):
                 ts[op[1]].grad = None
             elif op[0] == "add":
                 if ts[op[1]].grad is not None:
-                    ts[op[1]].grad.add_(torch.tensor([float(x) for x in op[2]], dtype=dtype).reshape(ts[op[1]].shape))
+                    ts[op[1]].grad.add_(torch.tensor([float(x) for x in op[2]], dtype=ts[op[1]].dtype).reshape(ts[op[1]].shape))
             elif op[0] == "set":
-                g0 = torch.tensor([float(x) for x in op[2]], dtype=dtype).reshape(ts[op[1]].shape)
+                g0 = torch.tensor([float(x) for x in op[2]], dtype=ts[op[1]].dtype).reshape(ts[op[1]].shape)
                 if g0.dim() >= 2 and (step + len(op[2])) % 2 == 0:
                     # same values, NON-contiguous memory layout (e.g. a .grad left by a channels_last / transposed
                     # computation): in-place accumulation must still go through it
